@@ -5,6 +5,7 @@
   composition is exercised by the lock-step correspondence and the network oracle (see MANIFEST level note).
 -/
 import J1939.Lemmas.Trace21
+import J1939.Lemmas.Bam21
 namespace J1939.Props.C01
 open J1939 J1939.Gen J1939.Dll21 J1939.Lemmas
 
@@ -125,5 +126,79 @@ theorem c01_ack_reported (cfg : Cfg) (s : St) (now : Nat) (mid : MessageId) (des
   have hl' : ¬ data.length < 8 := by omega
   unfold processCm
   simp [hl', hc, hb, PyDict.get?_set_self]
+
+/-! ### Broadcast (BAM) from end to end -/
+
+/-- ORIGINATOR, broadcast: `m` due background passes over a broadcast record with `m` packets left put exactly the
+    TP.DT frames of those packets on the bus — one per pass, in order, byte-identical chunks of the accepted payload —
+    and the last pass deletes the record (`Due`: the first pass at/after the record's deadline, each next one at/after
+    the previous pass plus the configured interval) -/
+theorem c01_bam_originator_frames (cfg : Cfg) (m : Nat) (times : List Nat) (b : Snd) (ht : times.length = m) (hm : 0 < m)
+    (hs : b.state = S_SENDING_BM) (hn : b.next + m = b.numPackages) (hdue : Due cfg b.deadline times) :
+    bamRun cfg times b = ((List.range' b.next m).map (fun k => Out.tx (Tp21.dt b.src b.dest (chunk b.data k))), none) :=
+  bamRun_frames cfg m times b ht hm hs hn hdue
+
+/-- BAM END TO END (J1939-21): an accepted broadcast of 9 … 1785 bytes, whose record is served by `n = ⌈len/7⌉` due
+    background passes (whatever else the originator does in between), puts exactly n + 1 frames on the bus — the
+    announcement and the n TP.DT frames in order — and the record is gone afterwards; ANY node that receives these
+    frames (whatever its state before, whatever its acceptance filter, at whatever times, under its own configuration)
+    delivers the message exactly once: PGN as announced, the originator's address, destination 255, the byte-identical
+    payload — and keeps no receive record -/
+theorem c01_bam_end_to_end (cfgO cfgR : Cfg) (sO sR : St) (acc : Nat → Bool) (t0 dp pf ps prio sa : Nat) (data : List Nat)
+    (hl : 8 < data.length) (hmax : data.length ≤ 1785) (hsa : sa < 256) (hp : prio < 8)
+    (hb : (ps == Const.Addr.GLOBAL || PGN.is_pdu2_format (PGN.ofFields 0 pf ps)) = true)
+    (hacc : (sendPgn cfgO sO t0 dp pf ps prio sa data).2 = true)
+    (passes : List Nat) (hpl : passes.length = Tp21.num_packets data.length)
+    (hdue : Due cfgO (t0 + cfgO.bamInterval) passes)
+    (rxTimes : List Nat) (hrl : rxTimes.length = Tp21.num_packets data.length + 1) :
+    let r0 := (sendPgn cfgO sO t0 dp pf ps prio sa data).1
+    let b := bamRec cfgO t0 dp pf ps prio sa data
+    let run := bamRun cfgO passes b
+    let wire := txFrames r0.outs ++ txFrames run.1
+    r0.st.snd.get? (Tp21.buffer_hash sa 255) = some b ∧ run.2 = none ∧
+    wire.length = Tp21.num_packets data.length + 1 ∧
+    deliveries (rxAll cfgR acc sR (rxTimes.zip wire)).2 = [(7, bamPgn dp pf ps, sa, 255, data)] ∧
+    (rxAll cfgR acc sR (rxTimes.zip wire)).1.rcv.get? (Tp21.buffer_hash sa 255) = none := by
+  intro r0 b run wire
+  have hn : 0 < Tp21.num_packets data.length := by
+    have := (num_packets_spec data.length).1; omega
+  have hn255 : Tp21.num_packets data.length < 256 := by
+    have := (num_packets_le_255 data.length).2 hmax; omega
+  have hr0 : r0 = _ := sendPgn_bam cfgO sO t0 dp pf ps prio sa data hl hb hacc
+  have hrun : run = _ := bamRun_frames cfgO (Tp21.num_packets data.length) passes b hpl hn rfl (by simp [b, bamRec]) hdue
+  have hwire : wire = Tp21.bam sa prio (bamPgn dp pf ps) data.length (Tp21.num_packets data.length) ::
+      (List.range' 0 (Tp21.num_packets data.length)).map (fun k => Tp21.dt sa 255 (chunk data k)) := by
+    simp only [wire, hr0, hrun]
+    rw [txFrames_map]
+    simp [txFrames, b, bamRec]
+  obtain ⟨t, ts, rfl⟩ : ∃ t ts, rxTimes = t :: ts := by
+    cases rxTimes with
+    | nil => simp at hrl
+    | cons t ts => exact ⟨t, ts, rfl⟩
+  simp only [List.length_cons, Nat.add_right_cancel_iff] at hrl
+  refine ⟨by rw [hr0]; exact PyDict.get?_set_self _ _ _, by rw [hrun], by rw [hwire]; simp, ?_⟩
+  rw [hwire]
+  obtain ⟨e1, e2, rc, e3, e4, e5, e6⟩ := rx_bam cfgR sR t acc sa prio (bamPgn dp pf ps) data.length (Tp21.num_packets data.length)
+    hsa hp (by omega) hn255 (bamPgn_lt dp pf ps)
+  obtain ⟨m1, m2, _⟩ := tp_id_parse 7 235 255 sa (by omega) (by omega) (by omega) hsa
+  have hz : ts.zip ((List.range' 0 (Tp21.num_packets data.length)).map (fun k => Tp21.dt sa 255 (chunk data k))) =
+      (ts.zip ((List.range' 0 (Tp21.num_packets data.length)).map (chunk data))).map (fun p => (p.1, Tp21.dt sa 255 p.2)) := by
+    exact zip_map_comp ts _ (chunk data) (Tp21.dt sa 255)
+  simp only [List.zip_cons_cons, rxAll, hz]
+  rw [rxAll_dt cfgR acc sa hsa]
+  have := feed_delivers data (by omega) _ 255 (Tp21.num_packets data.length) 0 (by omega) hn ts hrl _ rc
+    (by rw [m1]; exact e3) e4 (by rw [e5]; rfl) (fun h => absurd rfl h)
+  simp only at this
+  have h2 := this.2
+  rw [m1] at h2
+  rw [deliveries_append, e1, List.nil_append, this.1, m1, m2, e6]
+  exact ⟨rfl, h2⟩
+
+/-- the hypotheses of `c01_bam_end_to_end` are satisfiable: a 20-byte PDU2 message on an empty stack, three passes -/
+example : (sendPgn {} {} 1000 0 254 202 6 128 (List.range 20)).2 = true ∧
+    (202 == Const.Addr.GLOBAL || PGN.is_pdu2_format (PGN.ofFields 0 254 202)) = true ∧
+    Due {} (1000 + ({} : Cfg).bamInterval) [51000, 101000, 160000] ∧ Tp21.num_packets (List.range 20).length = 3 := by
+  refine ⟨by decide, by decide, ?_, by decide⟩
+  simp [Due, Const.Default.bam_interval_21]
 
 end J1939.Props.C01
